@@ -415,6 +415,7 @@ private:
     void doFrameBuild(const Step &st, StepRecord &rec);
     void doFillGaps(const Step &st, StepRecord &rec);
     void doBulk(const Step &st, StepRecord &rec);
+    void doParamEdit(const Step &st, StepRecord &rec);
     void doFrameSubmit(const Step &st, StepRecord &rec);
     void doFrameMutate(const Step &st, StepRecord &rec);
     void doCol(const Step &st, StepRecord &rec, bool analog);
@@ -782,6 +783,45 @@ void World::doParam(const Step &st, StepRecord &rec) {
     }
 }
 
+// the caller copies a parameter out of the object, edits the copy through its setters and hands it back
+void World::doParamEdit(const Step &st, StepRecord &rec) {
+    if (!obj || st.i.size() < 3 || st.s.empty() || cur.groups.empty()) { rec.skipped = true; return; }
+    size_t gi = static_cast<size_t>(st.i[0]) % cur.groups.size();
+    if (cur.groups[gi].params.empty() || cur.groups[gi].name.empty()) { rec.skipped = true; return; }
+    size_t pi = static_cast<size_t>(st.i[1]) % cur.groups[gi].params.size();
+    int kind = static_cast<int>(st.i[2]) % 3;
+    EParam p(obj->parameters().group(gi).parameter(pi)); // a copy
+    if (kind == 0 || kind == 2) p.description(st.s[0]);
+    if (kind == 1 || kind == 2) { if (p.isLocked()) p.unlock(); else p.lock(); }
+    SnapParam handed = snap_param(p);
+    Snapshot before = cur;
+    std::vector<uint8_t> preImg;
+    if (on(ORC_C10)) preImg = preImage();
+    try { obj->parameter(cur.groups[gi].name, p); } catch (...) { rec.threw = true; rec.exc = classify_current_exception(&lastWhat); }
+    cur = take_snapshot(*obj);
+    if (on(ORC_C09)) {
+        if (rec.threw) {
+            if (gen >= 1 && lastWhat.find("could not find") != std::string::npos) violate("C09", "parameter/refused-valid/loaded-file-lacks-parameter", "a parameter copied out of the object and handed back was refused on an object loaded from a file (" + lastWhat + ")");
+            else violate("C09", "parameter-edit/refused/" + rec.exc, "a parameter copied out of the object, edited and handed back was refused: " + rec.exc + " (" + lastWhat + ")");
+        } else {
+            Snapshot e2 = before;
+            // the first parameter of that name in the group is the one that is replaced
+            size_t tgt = pi;
+            for (size_t q = 0; q < e2.groups[gi].params.size(); ++q) if (e2.groups[gi].params[q].name == handed.name) { tgt = q; break; }
+            e2.groups[gi].params[tgt] = handed;
+            DiffOpts o; o.skip_header = true; o.skip_frames = true;
+            std::string fc, d = diff_snapshots(e2, cur, o, &fc);
+            if (!d.empty()) violate("C09", "parameter-edit/tree/" + fc, "after handing back an edited copy the tree is not 'exactly what was asked': " + d);
+        }
+    }
+    probe("param.edit-copy");
+    afterCall(st, rec.threw, rec.exc, before, true);
+    if (!stop && rec.threw && on(ORC_C10)) {
+        std::vector<uint8_t> post = preImage();
+        if (preImg != post) violate("C10", std::string("save-differs-after-throw/") + op_name(st.op), "a save after the refused call differs from a save before it");
+    }
+}
+
 void World::doLock(const Step &st, StepRecord &rec, bool lock) {
     if (!obj || st.s.empty()) { rec.skipped = true; return; }
     Snapshot before = cur;
@@ -1137,11 +1177,13 @@ void World::doSave(const Step &st, StepRecord &rec) {
         if (stop) return;
     }
     disk_remove(path);
+    if (fs.dest_is_dir) disk_set_dir(path, true);
     std::vector<WriteRec> trace;
     disk_begin_op(fs);
     std::string what;
     try { obj->write(path); } catch (...) { rec.threw = true; rec.exc = classify_current_exception(&what); }
     OpStats os = disk_end_op(&trace);
+    if (fs.dest_is_dir) disk_set_dir(path, false);
     res.st.saves++;
     res.st.io_calls += os.write_calls + os.seeks + os.opens;
     res.st.faults_fired += os.f_open_fail + os.f_budget + os.f_eio + os.f_short_write + os.f_eintr_w;
@@ -1161,6 +1203,10 @@ void World::doSave(const Step &st, StepRecord &rec) {
             violate("C15", "spurious-throw/" + rec.exc, "save threw " + rec.exc + " (" + what + ") although every byte was accepted");
         else if (!os.hard_fired && haveRef && img != refImg)
             violate("C15", "benign-fault-changed-image", "short writes / EINTR changed the bytes that reached the disk");
+        else if (!rec.threw && !exists)
+            violate("C15", "silent/no-file-at-destination", "save returned normally but there is no file at the destination");
+        else if (!rec.threw && fs.dest_is_dir)
+            violate("C15", "silent/destination-is-a-directory", "save returned normally although the destination path is a directory");
     }
     {
         uint64_t uoff = 0;
@@ -1307,6 +1353,7 @@ void World::run() {
         case OP_PRINT: doPrint(st, rec); break;
         case OP_FILL_GAPS: doFillGaps(st, rec); break;
         case OP_BULK_FRAMES: doBulk(st, rec); break;
+        case OP_PARAM_EDIT: doParamEdit(st, rec); break;
         default: rec.skipped = true; break;
         }
         rec.snap_hash = obj ? hash_snapshot(cur) : 0;
